@@ -10,7 +10,8 @@ def _has_nul(x):
 
 
 def classify(inp):
-    """D30: a Stats request with group-by Columns over data in which a string contains a NUL byte"""
+    """D30 (repaired, see known_findings.json fixed): a Stats request with group-by Columns over data in which a string
+    contains a NUL byte; no longer used as a known-finding class, kept for the histogram"""
     try:
         lines = inp["lines"]
         grouped = any(l.lower().startswith("columns:") for l in lines) and any(l.lower().startswith("stats:") for l in lines)
@@ -25,7 +26,7 @@ PROP = Prop(
     pid="C05",
     coq_props="theories/C05/Props.v",
     coq_run=["theories/QE/Run.v"],
-    streams=[Stream("c05", "qe", n_quick=400, n_thorough=4000, shards_thorough=8, valid=valid_qe, shrinker=shrink_request, classify=classify,
+    streams=[Stream("c05", "qe", n_quick=400, n_thorough=4000, shards_thorough=8, valid=valid_qe, shrinker=shrink_request,
                     extra_args=["--profile", "c05"],
                     what="generated requests through NewRequest/NewResponse/Buffer on a daemon loaded by the importer (profile c05)")],
     trusted_base=QE_TRUSTED,
